@@ -1,7 +1,216 @@
 ------------------------------- MODULE Msgpack -------------------------------
-(* STUB - to be replaced by the Msgpack reference decoder (same interface as Cbor.tla). *)
+(***************************************************************************)
+(* MessagePack reference decoder as total recursive operators over a byte  *)
+(* sequence, written from the MessagePack specification (msgpack/msgpack   *)
+(* spec.md): sections "Formats / Overview" (the first-byte table), "nil    *)
+(* format", "bool format family", "int format family", "float format       *)
+(* family", "str format family", "bin format family", "array format        *)
+(* family", "map format family", "ext format family", "Timestamp extension *)
+(* type" and "Serialization / Deserialization".  Independent oracle for    *)
+(* C07 (it is NOT a transcription of jsoncons' msgpack_parser.hpp).        *)
+(*                                                                         *)
+(*   Item(b, i)  ==  <<"ok", value, next>>  |  <<"err">>                   *)
+(* decodes ONE object starting at 1-based position i.  All multi-byte      *)
+(* numbers in MessagePack are big-endian ("Notation in diagrams"), so the  *)
+(* argument bytes are already in the order of the shared data model.       *)
+(*                                                                         *)
+(* Values: the shared binary data model of Cbor.tla's header               *)
+(*   <<"uint", bs>> <<"nint", bs>> (big-endian magnitude, no leading zero; *)
+(*   nint n is -1-n) <<"bstr", bytes>> <<"tstr", bytes>> <<"arr", seq>>    *)
+(*   <<"map", seq of <<key, value>> >> <<"bool", b>> <<"null">>            *)
+(*   <<"f32", bytes4>> <<"f64", bytes8>>                                   *)
+(* plus two MessagePack-only kinds that are only printed (Plain = FALSE):  *)
+(*   <<"ext", type, bytes>>  extension object, type = the raw type byte    *)
+(*                           0..255 (0..127 application-specific,          *)
+(*                           128..255 = the signed types -128..-1 that the *)
+(*                           specification reserves for predefined types)  *)
+(*   <<"ts", bytes>>         the predefined Timestamp type (-1): payload   *)
+(*                           of 4, 8 or 12 bytes                           *)
+(***************************************************************************)
 EXTENDS Naturals, Sequences, FiniteSets
-Decode(b) == <<"err">>
-Plain(v) == TRUE
-MayRefuse(v) == FALSE
+
+Huge == 100000000          \* stands for "longer than any input we ever build"
+
+At(b, i) == IF i >= 1 /\ i <= Len(b) THEN b[i] ELSE 0 - 1
+StripZeros(bs) == LET nz == {k \in 1..Len(bs) : bs[k] # 0} IN
+                  IF nz = {} THEN <<>> ELSE SubSeq(bs, CHOOSE k \in nz : \A m \in nz : k <= m, Len(bs))
+\* numeric value of a big-endian byte sequence, saturating at Huge (TLC integers are 32-bit)
+RECURSIVE NumOf(_, _, _)
+NumOf(bs, k, acc) == IF k > Len(bs) THEN acc
+                     ELSE IF acc >= Huge \div 256 THEN Huge ELSE NumOf(bs, k + 1, acc * 256 + bs[k])
+Num(bs) == NumOf(StripZeros(bs), 1, 0)
+\* bitwise NOT of every byte (two's complement x < 0  ==>  -1 - x = NOT x)
+Invert(bs) == [k \in 1..Len(bs) |-> 255 - bs[k]]
+Tuple(f) == SubSeq(f, 1, Len(f))       \* (no-op on tuples; keeps values printed as sequences)
+
+-----------------------------------------------------------------------------
+(* "str format family": "String extending Raw type represents a UTF-8      *)
+(* string".  UTF-8 well-formedness is RFC 3629 section 4 (ABNF): no        *)
+(* overlong forms, no surrogates U+D800..DFFF, nothing above U+10FFFF.     *)
+(* The MessagePack specification leaves the behaviour on an invalid byte   *)
+(* sequence to the implementation ("String objects may contain invalid     *)
+(* byte sequence and the behavior of a deserializer depends on the actual  *)
+(* implementation"); jsoncons pins it: its string data item is UTF-8 and   *)
+(* it documents the error msgpack_errc::invalid_utf8_text_string           *)
+(* ("Illegal UTF-8 encoding in text string").  The oracle therefore        *)
+(* predicts "err" for a str object whose payload is not UTF-8 - accepting  *)
+(* it would put a non-UTF-8 string into the JSON data model.               *)
+Tail1(c) == c >= 128 /\ c <= 191
+RECURSIVE Utf8Ok(_, _)
+Utf8Ok(s, i) ==
+  IF i > Len(s) THEN TRUE
+  ELSE LET c == At(s, i) c1 == At(s, i + 1) c2 == At(s, i + 2) c3 == At(s, i + 3) IN
+    IF c <= 127 THEN Utf8Ok(s, i + 1)
+    ELSE IF c >= 194 /\ c <= 223 /\ Tail1(c1) THEN Utf8Ok(s, i + 2)
+    ELSE IF c = 224 /\ c1 >= 160 /\ c1 <= 191 /\ Tail1(c2) THEN Utf8Ok(s, i + 3)
+    ELSE IF ((c >= 225 /\ c <= 236) \/ c = 238 \/ c = 239) /\ Tail1(c1) /\ Tail1(c2) THEN Utf8Ok(s, i + 3)
+    ELSE IF c = 237 /\ c1 >= 128 /\ c1 <= 159 /\ Tail1(c2) THEN Utf8Ok(s, i + 3)
+    ELSE IF c = 240 /\ c1 >= 144 /\ c1 <= 191 /\ Tail1(c2) /\ Tail1(c3) THEN Utf8Ok(s, i + 4)
+    ELSE IF c >= 241 /\ c <= 243 /\ Tail1(c1) /\ Tail1(c2) /\ Tail1(c3) THEN Utf8Ok(s, i + 4)
+    ELSE IF c = 244 /\ c1 >= 128 /\ c1 <= 143 /\ Tail1(c2) /\ Tail1(c3) THEN Utf8Ok(s, i + 4)
+    ELSE FALSE
+
+-----------------------------------------------------------------------------
+(* Fixed-width big-endian field of w bytes at position i:                  *)
+(* <<"ok", bytes, next>> or <<"err">> when the input ends inside it.       *)
+Field(b, i, w) == IF i + w - 1 > Len(b) THEN <<"err">> ELSE <<"ok", SubSeq(b, i, i + w - 1), i + w>>
+\* a payload of n bytes (n may be Huge: a claimed length beyond the input is a truncated object)
+Payload(b, i, n) == IF n >= Huge \/ i + n - 1 > Len(b) THEN <<"err">> ELSE <<"ok", SubSeq(b, i, i + n - 1), i + n>>
+
+(* "int format family": int 8/16/32/64 are two's-complement big-endian     *)
+(* signed integers.  Non-negative (top bit clear): the magnitude itself;   *)
+(* negative (top bit set): -1 - NOT(bytes).                                *)
+Signed(bs) == IF bs[1] < 128 THEN <<"uint", StripZeros(bs)>> ELSE <<"nint", StripZeros(Tuple(Invert(bs)))>>
+
+(* "Timestamp extension type": type -1 (type byte 255).                    *)
+(*   timestamp 32: 4 bytes  = seconds (uint32)                             *)
+(*   timestamp 64: 8 bytes  = nanoseconds (upper 30 bits) | seconds (34)   *)
+(*   timestamp 96: 12 bytes = nanoseconds (uint32) | seconds (int64)       *)
+(* "In timestamp 64 and timestamp 96 formats, nanoseconds must not be      *)
+(* larger than 999999999."  999999999 = 0x3B9AC9FF.                        *)
+Nanos64(d) == (((d[1] * 65536) + (d[2] * 256) + d[3]) * 64) + (d[4] \div 4)          \* < 2^30
+NanosTooLarge(d) ==
+  CASE Len(d) = 8  -> Nanos64(d) > 999999999
+    [] Len(d) = 12 -> d[1] > 59 \/ (d[1] = 59 /\ ((d[2] * 65536) + (d[3] * 256) + d[4]) > 10144255)    \* 0x9AC9FF
+    [] OTHER -> FALSE
+(* An ext object of type ty with payload d.  The deserialization pseudo    *)
+(* code of the Timestamp section selects the timestamp layout by the data  *)
+(* length of the ext object (4, 8, 12), whatever ext format carried it.    *)
+ExtValue(ty, d) == IF ty = 255 /\ Len(d) \in {4, 8, 12} THEN <<"ts", d>> ELSE <<"ext", ty, d>>
+
+RECURSIVE Item(_, _), Items(_, _, _, _), Pairs(_, _, _, _)
+
+\* "array format family": N objects follow the head
+Items(b, i, n, acc) ==
+  IF n = 0 THEN <<"ok", acc, i>>
+  ELSE IF i > Len(b) THEN <<"err">>            \* also stops absurd claimed counts at once
+  ELSE LET r == Item(b, i) IN IF r[1] = "err" THEN r ELSE Items(b, r[3], n - 1, Append(acc, r[2]))
+\* "map format family": N*2 objects follow the head; "odd elements are keys and the next element of a key is its value"
+Pairs(b, i, n, acc) ==
+  IF n = 0 THEN <<"ok", acc, i>>
+  ELSE IF i > Len(b) THEN <<"err">>
+  ELSE LET k == Item(b, i) IN IF k[1] = "err" THEN k
+       ELSE LET v == Item(b, k[3]) IN IF v[1] = "err" THEN v ELSE Pairs(b, v[3], n - 1, Append(acc, <<k[2], v[2]>>))
+
+\* str object with n payload bytes starting at i
+Str(b, i, n) == LET p == Payload(b, i, n) IN
+  IF p[1] = "err" THEN p ELSE IF ~Utf8Ok(p[2], 1) THEN <<"err">> ELSE <<"ok", <<"tstr", p[2]>>, p[3]>>
+\* bin object with n payload bytes starting at i
+Bin(b, i, n) == LET p == Payload(b, i, n) IN IF p[1] = "err" THEN p ELSE <<"ok", <<"bstr", p[2]>>, p[3]>>
+\* ext object: one type byte at i, then n payload bytes
+Ext(b, i, n) == LET t == Field(b, i, 1) IN
+  IF t[1] = "err" THEN t
+  ELSE LET p == Payload(b, t[3], n) IN IF p[1] = "err" THEN p ELSE <<"ok", ExtValue(t[2][1], p[2]), p[3]>>
+Arr(b, i, n) == LET r == Items(b, i, n, <<>>) IN IF r[1] = "err" THEN r ELSE <<"ok", <<"arr", r[2]>>, r[3]>>
+Map(b, i, n) == LET r == Pairs(b, i, n, <<>>) IN IF r[1] = "err" THEN r ELSE <<"ok", <<"map", r[2]>>, r[3]>>
+\* a length/count field of w bytes at i, then the body built by one of the operators above
+WithLen(b, i, w, Body(_, _, _)) == LET f == Field(b, i, w) IN IF f[1] = "err" THEN f ELSE Body(b, f[3], Num(f[2]))
+\* a fixed-width scalar of w bytes at i
+Scalar(b, i, w, Val(_)) == LET f == Field(b, i, w) IN IF f[1] = "err" THEN f ELSE <<"ok", Val(f[2]), f[3]>>
+UIntVal(bs) == <<"uint", StripZeros(bs)>>
+F32Val(bs) == <<"f32", bs>>
+F64Val(bs) == <<"f64", bs>>
+
+(* "Formats / Overview": the object kind is selected by the first byte.    *)
+Item(b, i) ==
+  IF i > Len(b) THEN <<"err">>                               \* no object at all / truncated container
+  ELSE LET c == b[i]  nx == i + 1 IN
+    CASE c <= 127            -> <<"ok", <<"uint", StripZeros(<<c>>)>>, nx>>        \* positive fixint 0xxxxxxx: 7-bit unsigned integer
+      [] c >= 128 /\ c <= 143 -> Map(b, nx, c - 128)                               \* fixmap   1000xxxx: up to 15 pairs
+      [] c >= 144 /\ c <= 159 -> Arr(b, nx, c - 144)                               \* fixarray 1001xxxx: up to 15 elements
+      [] c >= 160 /\ c <= 191 -> Str(b, nx, c - 160)                               \* fixstr   101xxxxx: up to 31 bytes
+      [] c = 192 -> <<"ok", <<"null">>, nx>>                                       \* nil   0xc0
+      [] c = 193 -> <<"err">>                                                      \* (never used) 0xc1
+      [] c = 194 -> <<"ok", <<"bool", FALSE>>, nx>>                                \* false 0xc2
+      [] c = 195 -> <<"ok", <<"bool", TRUE>>, nx>>                                 \* true  0xc3
+      [] c = 196 -> WithLen(b, nx, 1, Bin)                                         \* bin 8   0xc4: 8-bit length
+      [] c = 197 -> WithLen(b, nx, 2, Bin)                                         \* bin 16  0xc5: 16-bit big-endian length
+      [] c = 198 -> WithLen(b, nx, 4, Bin)                                         \* bin 32  0xc6: 32-bit big-endian length
+      [] c = 199 -> WithLen(b, nx, 1, Ext)                                         \* ext 8   0xc7: length, type, data
+      [] c = 200 -> WithLen(b, nx, 2, Ext)                                         \* ext 16  0xc8
+      [] c = 201 -> WithLen(b, nx, 4, Ext)                                         \* ext 32  0xc9
+      [] c = 202 -> Scalar(b, nx, 4, F32Val)                                       \* float 32 0xca: big-endian IEEE 754 single
+      [] c = 203 -> Scalar(b, nx, 8, F64Val)                                       \* float 64 0xcb: big-endian IEEE 754 double
+      [] c = 204 -> Scalar(b, nx, 1, UIntVal)                                      \* uint 8  0xcc
+      [] c = 205 -> Scalar(b, nx, 2, UIntVal)                                      \* uint 16 0xcd
+      [] c = 206 -> Scalar(b, nx, 4, UIntVal)                                      \* uint 32 0xce
+      [] c = 207 -> Scalar(b, nx, 8, UIntVal)                                      \* uint 64 0xcf
+      [] c = 208 -> Scalar(b, nx, 1, Signed)                                       \* int 8   0xd0
+      [] c = 209 -> Scalar(b, nx, 2, Signed)                                       \* int 16  0xd1
+      [] c = 210 -> Scalar(b, nx, 4, Signed)                                       \* int 32  0xd2
+      [] c = 211 -> Scalar(b, nx, 8, Signed)                                       \* int 64  0xd3
+      [] c = 212 -> Ext(b, nx, 1)                                                  \* fixext 1  0xd4: type, 1 data byte
+      [] c = 213 -> Ext(b, nx, 2)                                                  \* fixext 2  0xd5
+      [] c = 214 -> Ext(b, nx, 4)                                                  \* fixext 4  0xd6
+      [] c = 215 -> Ext(b, nx, 8)                                                  \* fixext 8  0xd7
+      [] c = 216 -> Ext(b, nx, 16)                                                 \* fixext 16 0xd8
+      [] c = 217 -> WithLen(b, nx, 1, Str)                                         \* str 8   0xd9
+      [] c = 218 -> WithLen(b, nx, 2, Str)                                         \* str 16  0xda
+      [] c = 219 -> WithLen(b, nx, 4, Str)                                         \* str 32  0xdb
+      [] c = 220 -> WithLen(b, nx, 2, Arr)                                         \* array 16 0xdc
+      [] c = 221 -> WithLen(b, nx, 4, Arr)                                         \* array 32 0xdd
+      [] c = 222 -> WithLen(b, nx, 2, Map)                                         \* map 16  0xde
+      [] c = 223 -> WithLen(b, nx, 4, Map)                                         \* map 32  0xdf
+      [] c >= 224 -> <<"ok", <<"nint", StripZeros(<<255 - c>>)>>, nx>>             \* negative fixint 111xxxxx: 5-bit negative integer -32..-1
+
+\* whole-input decoding of the first object
+Decode(b) == Item(b, 1)
+
+-----------------------------------------------------------------------------
+(* Classification used by the conformance cases.                           *)
+(* Plain(v): every kind in v is understood by harness/common/binval.hpp    *)
+(* AND doc/ref/msgpack/msgpack.md documents its jsoncons image (nil ->     *)
+(* null, bool, int family -> int64/uint64, float -> double, str -> string, *)
+(* bin -> byte_string, array -> array, map -> object).  Objects have text  *)
+(* keys and one value per key, so maps with other keys or duplicate keys   *)
+(* are compared on the verdict only; ext objects and timestamps map to     *)
+(* tagged byte strings / tagged numbers that binval.hpp cannot state.      *)
+RECURSIVE Plain(_)
+Plain(v) ==
+  CASE v[1] = "arr" -> \A k \in 1..Len(v[2]) : Plain(v[2][k])
+    [] v[1] = "map" -> /\ \A k \in 1..Len(v[2]) : v[2][k][1][1] = "tstr" /\ Plain(v[2][k][2])          \* text keys only
+                       /\ \A k, m \in 1..Len(v[2]) : k # m => v[2][k][1] # v[2][m][1]                  \* no duplicate keys
+    [] v[1] = "ext" -> FALSE
+    [] v[1] = "ts" -> FALSE
+    [] OTHER -> TRUE          \* nint from int 8..64 is >= -2^63 by construction
+
+(* MayRefuse(v): well-formed MessagePack that a conforming decoder may     *)
+(* still refuse; the verdict is not compared (the case is still replayed). *)
+(*  R1 ext objects whose type is negative (type byte 128..255) other than  *)
+(*     a timestamp: "MessagePack reserves -1 to -128 for future extension  *)
+(*     to add predefined types"; the specification does not say what a     *)
+(*     decoder does with a predefined type it does not know, and the       *)
+(*     timestamp pseudo code ends with "default: // error" for type -1     *)
+(*     with a data length other than 4, 8, 12.  jsoncons documents ext     *)
+(*     types 0-127 and -1 only.                                            *)
+(*  R2 timestamps (type -1, 8 or 12 data bytes) whose nanoseconds field    *)
+(*     exceeds 999999999: "nanoseconds must not be larger than 999999999"  *)
+(*     constrains the producer; a decoder may reject or pass it on.        *)
+ReservedExt(v) == v[1] = "ext" /\ v[2] >= 128
+BadTimestamp(v) == v[1] = "ts" /\ NanosTooLarge(v[2])
+RECURSIVE MayRefuse(_)
+MayRefuse(v) ==
+  CASE v[1] = "arr" -> \E k \in 1..Len(v[2]) : MayRefuse(v[2][k])
+    [] v[1] = "map" -> \E k \in 1..Len(v[2]) : MayRefuse(v[2][k][1]) \/ MayRefuse(v[2][k][2])
+    [] OTHER -> ReservedExt(v) \/ BadTimestamp(v)
 =============================================================================
